@@ -479,6 +479,22 @@ theorem C09_reqs_ok (c : SessOut.Cfg) (L : List Content) (cv : U32) :
           exact ⟨frs, a1, by rw [ho, a2], hv, by rw [ho]; unfold mtuLimit IKCP_OVERHEAD at hlen; omega, rfl⟩
         · simp only [List.flatten_cons, h2, wireSegs, List.flatMap_cons, a4, Option.getD_some]
 
+/-- part of the composition assumption that IS derivable: the output callback of `newUDPSession` never
+skips a datagram of the core (`size < IKCP_OVERHEAD` never happens: a datagram holds at least one
+24-byte header), so every core datagram becomes a request -/
+theorem C09_outputCb_never_skips (c : SessOut.Cfg) (k0 : Kcp) (hf : Fresh k0) (hm : InvMss k0) (ops : List Op) :
+    ∀ o ∈ (run { k := k0 } ops).wire, outputCb c o.length ≠ .skipped := by
+  intro o ho
+  obtain ⟨frs, hne, ho', _⟩ := (C09_wire_invariant k0 hf hm ops).wire o ho
+  have h1 := SysW.encFrames_length_ge frs
+  have h2 : 0 < frs.length := List.length_pos_iff.mpr hne
+  have h3 : IKCP_OVERHEAD ≤ o.length := by
+    rw [ho']
+    exact Nat.le_trans (by simpa using Nat.mul_le_mul_left IKCP_OVERHEAD h2) h1
+  unfold outputCb
+  rw [if_neg (by omega)]
+  split <;> simp
+
 /-- **(d) `wire_reassembles` with FEC and/or a cipher.**  Any history of the core from a fresh core
 numbering from 0 (as in `C09_wire_decodes`), any configuration `c` (no cipher / block cipher with
 nonce ‖ CRC header / AEAD; FEC on or off), any request list `reqs` that carries the core's datagrams in
